@@ -22,6 +22,12 @@ pub enum Case {
   Gen(Vec<(u8, u32)>),
   /// program from the shared typed generator
   Prog(Vec<u32>),
+  /// program from the recursive grammar generator (xgen): every syntactic form nested into every other, lexically varied literals
+  Gram(Vec<u32>),
+  /// Mechdown document from the grammar generator (title, sections, paragraphs with inline markup, lists, quotes, tables, fences ...)
+  Doc(Vec<u32>),
+  /// literal source text (hand-written regression cases, inputs saved by a fuzzing campaign)
+  Text(String),
 }
 
 pub fn corpus(which: &str) -> &'static Vec<(String, String)> {
@@ -96,13 +102,16 @@ pub fn case_text(c: &Case) -> Option<String> {
     Case::File(i) => corpus("files").get(*i as usize).map(|x| x.1.clone()),
     Case::Gen(v) => Some(gen_text(v)),
     Case::Prog(ch) => Some(progs::build(ch, Opts { allow_mutation: true, allow_noncore: true, max_stmts: 8, trailing_other: false }).source()),
+    Case::Gram(ch) => Some(crate::xgen::program(ch).0),
+    Case::Doc(ch) => Some(crate::xgen::document(ch).0),
+    Case::Text(t) => Some(t.clone()),
   }
 }
 
 impl Prop for C08 {
   type Case = Case;
   const ID: &'static str = "C08";
-  fn budget(t: Tier) -> u32 { t.pick(6_000, 120_000) }
+  fn budget(t: Tier) -> u32 { t.pick(16_000, 300_000) }
   fn timeout_ms(_t: Tier) -> u64 { 60_000 }
   fn stack_mb() -> usize { 256 }
   fn strategy(_t: Tier, k: &Known) -> BoxedStrategy<Case> {
@@ -114,7 +123,9 @@ impl Prop for C08 {
       Case::Gen(if v.is_empty() { vec![(0, 1)] } else { v })
     }).boxed();
     let prog = proptest::collection::vec(0u32..100_000, 6..=60).prop_map(Case::Prog).boxed();
-    prop_oneof![3 => single, 4 => composite, 2 => prog].boxed()
+    let gram = proptest::collection::vec(0u32..1_000_000, 4..=80).prop_map(Case::Gram).boxed();
+    let doc = proptest::collection::vec(0u32..1_000_000, 4..=60).prop_map(Case::Doc).boxed();
+    prop_oneof![2 => single, 3 => composite, 1 => prog, 6 => gram, 3 => doc].boxed()
   }
   fn fixed_cases(_t: Tier) -> Vec<Case> {
     let mut out: Vec<Case> = (0..corpus("snippets").len() as u32).map(Case::Snippet).collect();
@@ -242,12 +253,13 @@ fn collect_types(j: &J, out: &mut Vec<String>) {
 fn check(c: &Case) -> Verdict {
   let mut v = Verdict::new();
   let Some(src) = case_text(c) else { v.discard("corpus entry missing"); return v; };
-  let class = match c { Case::Snippet(_) => "suite-snippet".to_string(), Case::File(_) => "mec-file".to_string(), Case::Gen(g) if g.len() == 1 => format!("construct:{}", construct(g[0].0, g[0].1).0), Case::Gen(_) => "composite".to_string(), Case::Prog(_) => "typed-program".to_string() };
+  let class = match c { Case::Snippet(_) => "suite-snippet".to_string(), Case::File(_) => "mec-file".to_string(), Case::Gen(g) if g.len() == 1 => format!("construct:{}", construct(g[0].0, g[0].1).0), Case::Gen(_) => "composite".to_string(), Case::Prog(_) => "typed-program".to_string(), Case::Gram(_) => "grammar".to_string(), Case::Doc(_) => "document".to_string(), Case::Text(_) => "text".to_string() };
   v.label(format!("class:{}", class.split(':').next().unwrap_or("")));
   if let Case::Gen(g) = c { for (kk, p) in g { v.label(format!("construct:{}", construct(*kk, *p).0)); } }
+  let gram_feats: Vec<&'static str> = if let Case::Gram(ch) = c { crate::xgen::program(ch).1 } else if let Case::Doc(ch) = c { crate::xgen::document(ch).1 } else { vec![] };
   match round_trip(&src) {
     Fmt::Discard(why) => { v.discard(format!("{}: {}", class.split(':').next().unwrap_or(""), why)); if matches!(c, Case::Gen(g) if g.len() == 1) { v.label(format!("construct-does-not-parse:{}", class)); } }
-    Fmt::Ok(types) => { if types.len() >= 3 { v.key = Some(types.join(",").chars().take(300).collect()); } }
+    Fmt::Ok(types) => { for f in &gram_feats { v.label(format!("grammar:{}", f)); } if types.len() >= 3 { v.key = Some(types.join(",").chars().take(300).collect()); } }
     Fmt::Fail(kind, msg) => {
       // single generated constructs are keyed by construct; everything else by failure class + node path
       let sig = match c { Case::Gen(g) if g.len() == 1 => format!("C08|{}|{}", class, kind), _ => format!("C08|{}", kind) };
